@@ -18,13 +18,16 @@ Cfg == Logs[tid].cfg
 First(a, b) == IF a # "ok" THEN a ELSE b
 
 FailOf(r) ==
-    CASE r.e = "hp"  -> "ok"
-      [] r.e = "dp"  -> DevPktFail(Cfg, r)
+    CASE r.e = "hp"  -> HostPktEnv(r)
+      [] r.e = "dp"  -> DevPktFail([Cfg EXCEPT !.speed = bus.spd], r)
+      [] r.e = "reset" -> ResetFail(r)
+      [] r.e = "bus" -> BusEventFail(r)
+      [] r.e = "stray_chirp" -> "device_chirps_outside_a_bus_reset"
       [] r.e = "quiet" -> QuietFail(r.addr, r.is_in)
       [] r.e = "tx"  -> TxBeatsFail(r.beats)
       [] r.e = "rx"  -> RxBeatsFail(r.bytes)
-      [] r.e = "out" -> First(OutWireFail(r.resp), OutFail(r.addr, r.tog, r.payload, r.crc_ok, r.resp))
-      [] r.e = "in"  -> First(InWireFail(r.resp), InFail(r.addr, r.resp, r.host_ack))
+      [] r.e = "out" -> First(BulkEnv(r.addr), First(OutWireFail(r.resp), OutFail(r.addr, r.tog, r.payload, r.crc_ok, r.resp)))
+      [] r.e = "in"  -> First(BulkEnv(r.addr), First(InWireFail(r.resp), InFail(r.addr, r.resp, r.host_ack)))
       [] r.e = "ctl" -> First(CtlWireFail(r.req, r.outcome, r.data), CtlFail(r.addr, r.req, r.outcome, r.data, Cfg.vid, Cfg.pid))
       [] r.e = "end" -> First(IF pk = <<>> THEN "ok" ELSE "device_packet_at_phy_not_reported_by_transaction", EndFail)
       [] OTHER -> "unknown_record"
@@ -32,12 +35,15 @@ FailOf(r) ==
 Apply(r) ==
     CASE r.e = "hp"  -> HostPkt(r)
       [] r.e = "dp"  -> DevPkt(Cfg, r)
+      [] r.e = "reset" -> BusReset(r)
+      [] r.e = "bus" -> BusEvent(r)
       [] r.e = "quiet" -> Consumed /\ UNCHANGED vars
       [] r.e = "tx"  -> TxBeats(r.beats) /\ UNCHANGED wvars
       [] r.e = "rx"  -> RxBeats(r.bytes) /\ UNCHANGED wvars
       [] r.e = "out" -> Out(r.addr, r.tog, r.payload, r.crc_ok, r.resp) /\ Consumed
       [] r.e = "in"  -> In(r.addr, r.resp, r.host_ack) /\ Consumed
-      [] r.e = "ctl" -> Ctl(r.addr, r.req, r.outcome, r.data) /\ Consumed
+      [] r.e = "ctl" -> /\ Ctl(r.addr, r.req, r.outcome, r.data) /\ pk' = <<>> /\ UNCHANGED <<sol, tok>>
+                        /\ bus' = AfterCtl(r.addr, r.req, r.outcome)
       [] OTHER -> UNCHANGED svars
 
 TInit == SInit /\ tid \in 1..Len(Logs) /\ l = 1 /\ status = "ok"
